@@ -372,8 +372,12 @@ Proof. unfold well_framed. vm_compute. repeat split; lia. Qed.
 
 Section Record12.
   Context {H : Type} (hs : wcodec H).
+  (* what is assumed of the handshake codec plugged into the record (discharged for the real
+     handshake envelope in C18HsSound.v): it round-trips on its domain, and whenever a decoded
+     handshake re-encodes at all, the re-encoding is a byte-level fixed point *)
   Hypothesis hs_sound : wsound hs.
-  Hypothesis hs_decwf : wdec_wf hs.
+  Hypothesis hs_refix : forall b x e, bytes_ok b = true -> wdec hs b = Some x -> wenc hs x = Some e ->
+    exists x', wdec hs e = Some x' /\ wenc hs x' = Some e.
 
   Lemma content_roundtrip c : content_wf hs c = true ->
     exists ce, content_enc hs c = Some ce /\ content_dec hs (content_type c) ce = Some c.
@@ -388,22 +392,61 @@ Section Record12.
     - destruct (rrc_roundtrip r W) as [e [E D]]. exists e. rewrite D. split; [exact E|reflexivity].
   Qed.
 
+  Definition is_hs (c : content H) : bool := match c with CHandshake _ => true | _ => false end.
+
+  Lemma content_dec_type ct b c : content_dec hs ct b = Some c -> content_type c = ct.
+  Proof.
+    unfold content_dec.
+    repeat match goal with
+           | |- context [if ?x =? ?y then _ else _] => destruct (N.eqb_spec x y) as [->|]
+           end; try discriminate;
+      match goal with |- omap _ ?o = _ -> _ => destruct o as [v|]; [|discriminate] end;
+      cbn [omap]; intro Hx; inversion Hx; subst c; reflexivity.
+  Qed.
+
   Lemma content_dec_wf ct b c : bytes_ok b = true -> content_dec hs ct b = Some c ->
-    content_wf hs c = true /\ content_type c = ct.
+    is_hs c = false -> content_wf hs c = true.
   Proof.
     intros Hb. unfold content_dec.
     repeat match goal with
            | |- context [if ?x =? ?y then _ else _] => destruct (N.eqb_spec x y) as [->|]
            end; try discriminate;
       match goal with |- omap _ ?o = _ -> _ => destruct o as [v|] eqn:E; [|discriminate] end;
-      cbn [omap]; intro Hx; inversion Hx; subst c; clear Hx; cbn [content_wf content_type];
-      (split; [|reflexivity]).
+      cbn [omap]; intro Hx; inversion Hx; subst c; clear Hx; cbn [content_wf is_hs]; intro Hh;
+      try discriminate.
     - reflexivity.
     - exact (wdec_wf_of _ alert_decok _ _ Hb E).
-    - exact (hs_decwf _ _ Hb E).
     - exact (wdec_wf_of _ wdecok_rest _ _ Hb E).
     - exact (wdec_wf_of _ ack_decok _ _ Hb E).
     - exact (rrc_decwf _ _ Hb E).
+  Qed.
+
+  (* whenever decoded content re-encodes, the re-encoding is a byte-level fixed point *)
+  Lemma content_refix ct b c ce : bytes_ok b = true -> content_dec hs ct b = Some c ->
+    content_enc hs c = Some ce ->
+    exists c', content_dec hs ct ce = Some c' /\ content_enc hs c' = Some ce /\
+               (is_hs c = false -> c' = c).
+  Proof.
+    intros Hb Hd He. pose proof (content_dec_type _ _ _ Hd) as Ht.
+    destruct (is_hs c) eqn:Hh.
+    - destruct c; try discriminate. cbn [content_type] in Ht. subst ct.
+      unfold content_dec in Hd. cbn [N.eqb Pos.eqb] in Hd.
+      destruct (wdec hs b) as [x|] eqn:Ex; [|discriminate]. cbn [omap] in Hd.
+      inversion Hd; subst h; clear Hd. cbn [content_enc] in He.
+      destruct (hs_refix _ _ _ Hb Ex He) as [x' [Dx' Ex']].
+      exists (CHandshake x'). unfold content_dec. cbn [N.eqb Pos.eqb]. rewrite Dx'.
+      split; [reflexivity|]. split; [exact Ex'|discriminate].
+    - pose proof (content_dec_wf _ _ _ Hb Hd Hh) as W.
+      destruct (content_roundtrip c W) as [ce' [E' D']]. rewrite He in E'. inversion E'; subst ce'.
+      exists c. rewrite <- Ht. split; [exact D'|]. split; [exact He|reflexivity].
+  Qed.
+
+  (* content other than a handshake message always re-encodes *)
+  Lemma content_reencodes ct b c : bytes_ok b = true -> content_dec hs ct b = Some c ->
+    is_hs c = false -> exists ce, content_enc hs c = Some ce.
+  Proof.
+    intros Hb Hd Hh. destruct (content_roundtrip c (content_dec_wf _ _ _ Hb Hd Hh)) as [ce [E _]].
+    exists ce. exact E.
   Qed.
 
   (* value-level round trip on the canonical domain (ContentLen and ContentType consistent) *)
@@ -425,42 +468,78 @@ Section Record12.
     unfold record_unmarshal. rewrite Dh. unfold h_ct, mk_hdr; cbn [fst]. rewrite Wt, Dc. reflexivity.
   Qed.
 
-  (* byte-level fixed point for every accepted input: the re-encoding e of what was decoded
-     decodes again, and re-encodes to e *)
-  Theorem record_fixpoint_bytes n b x : bytes_ok b = true -> record_unmarshal hs n b = Some x ->
-    exists e, record_marshal hs x = Some e /\
-      exists x', record_unmarshal hs 0 e = Some x' /\ record_marshal hs x' = Some e /\
-                 snd x' = snd x.
+  (* what decoding a record guarantees about its header *)
+  Lemma record_unmarshal_inv n b h c : bytes_ok b = true -> record_unmarshal hs n b = Some (h, c) ->
+    exists r, dec (c_header n) b = Some (h, r) /\ content_dec hs (h_ct h) r = Some c /\
+              bytes_ok r = true /\ wf (c_header n) h = true /\ h_ct h <> ct_cid /\ h_cid h = [].
   Proof.
     intros Hb Hd. unfold record_unmarshal in Hd.
-    destruct (dec (c_header n) b) as [[h r]|] eqn:Eh; [|discriminate].
-    destruct (content_dec hs (h_ct h) r) as [c|] eqn:Ec; [|discriminate].
-    inversion Hd; subst x; clear Hd.
+    destruct (dec (c_header n) b) as [[h0 r]|] eqn:Eh; [|discriminate].
+    destruct (content_dec hs (h_ct h0) r) as [c0|] eqn:Ec; [|discriminate].
+    inversion Hd; subst h0 c0; clear Hd. exists r.
     destruct (decok_header n _ _ _ Hb Eh) as [Wh [he0 [p [_ [Hbp _]]]]].
     assert (Hr : bytes_ok r = true) by (rewrite Hbp in Hb; apply (bytes_ok_app_inv _ _ Hb)).
-    destruct (content_dec_wf _ _ _ Hr Ec) as [Wc Wt].
-    destruct (content_roundtrip c Wc) as [ce [Ece Dce]].
+    assert (Hct : h_ct h <> ct_cid).
+    { intro Hx. rewrite Hx in Ec. unfold content_dec, ct_cid in Ec. cbn [N.eqb Pos.eqb] in Ec. discriminate. }
+    repeat split; try assumption.
+    destruct h as [ct [maj [mi [ep [sq [cid l]]]]]].
+    pose proof (proj1 (header_wf_spec n ct maj mi ep sq cid l) Wh) as (_ & _ & _ & _ & _ & H6 & _).
+    unfold h_ct, h_cid in *; cbn [fst snd] in *.
+    destruct (N.eqb_spec ct ct_cid); [contradiction|]. destruct cid; [reflexivity|discriminate].
+  Qed.
+
+  (* byte-level fixed point for every accepted input whose decoded value re-encodes: the
+     re-encoding e decodes again, and that re-encodes to e *)
+  Theorem record_fixpoint_bytes n b x e : bytes_ok b = true -> record_unmarshal hs n b = Some x ->
+    record_marshal hs x = Some e ->
+    exists x', record_unmarshal hs 0 e = Some x' /\ record_marshal hs x' = Some e /\
+               (is_hs (snd x) = false -> snd x' = snd x).
+  Proof.
+    destruct x as [h c]. intros Hb Hd Hm.
+    destruct (record_unmarshal_inv _ _ _ _ Hb Hd) as [r (Eh & Ec & Hr & Wh & Hct & Hcid)].
+    unfold record_marshal in Hm. destruct (content_enc hs c) as [ce|] eqn:Ece; [|discriminate].
+    destruct (content_refix _ _ _ _ Hr Ec Ece) as [c' (Dc' & Ec' & Hc')].
+    pose proof (content_dec_type _ _ _ Ec) as Wt.
+    pose proof (content_dec_type _ _ _ Dc') as Wt'.
     destruct h as [ct [maj [mi [ep [sq [cid l]]]]]].
     pose proof (proj1 (header_wf_spec n ct maj mi ep sq cid l) Wh) as (H1 & H2 & H3 & H4 & H5 & H6 & H7 & H8).
-    unfold h_ct in *; cbn [fst] in *.
-    assert (Hct : ct <> ct_cid).
-    { intro Hx. rewrite Hx in Ec. unfold content_dec, ct_cid in Ec. cbn [N.eqb Pos.eqb] in Ec. discriminate. }
-    assert (Hcid : length cid = 0%nat).
-    { destruct (N.eqb_spec ct ct_cid); [contradiction|exact H6]. }
-    set (h' := mk_hdr (content_type c) maj mi ep sq cid (len ce mod 65536)).
+    unfold h_ct, h_cid, h_maj, h_min, h_epoch, h_seq in *; cbn [fst snd] in *. subst cid.
+    cbn [length] in Hm.
+    set (h' := mk_hdr (content_type c) maj mi ep sq [] (len ce mod 65536)) in *.
     assert (Wh' : wf (c_header 0) h' = true).
     { apply header_wf_spec. rewrite Wt. repeat split; try assumption.
-      - destruct (ct =? ct_cid); exact Hcid.
+      - destruct (ct =? ct_cid); reflexivity.
       - apply N.mod_lt. lia. }
     destruct (sound_header 0 h' ce Wh') as [he [Ehe Dhe]].
-    assert (Hm : forall l0, record_marshal hs (mk_hdr ct maj mi ep sq cid l0, c) = Some (he ++ ce)).
-    { intro l0. unfold record_marshal. rewrite Ece.
-      unfold h_maj, h_min, h_epoch, h_seq, h_cid, mk_hdr; cbn [fst snd]. rewrite Hcid.
-      fold (mk_hdr (content_type c) maj mi ep sq cid (len ce mod 65536)). fold h'. rewrite Ehe. reflexivity. }
-    exists (he ++ ce). split; [exact (Hm l)|].
-    exists (h', c). split; [|split; [|reflexivity]].
-    - unfold record_unmarshal. rewrite Dhe. unfold h', h_ct, mk_hdr; cbn [fst]. rewrite Dce. reflexivity.
-    - unfold h'. rewrite Wt. exact (Hm _).
+    rewrite Ehe in Hm. inversion Hm; subst e; clear Hm.
+    exists (h', c'). split; [|split].
+    - unfold record_unmarshal. rewrite Dhe. unfold h', h_ct, mk_hdr; cbn [fst]. rewrite Wt, Dc'. reflexivity.
+    - unfold record_marshal. rewrite Ec'.
+      unfold h', h_maj, h_min, h_epoch, h_seq, h_cid, mk_hdr; cbn [fst snd length].
+      rewrite Wt', <- Wt. fold (mk_hdr (content_type c) maj mi ep sq [] (len ce mod 65536)). fold h'.
+      rewrite Ehe. reflexivity.
+    - cbn [snd]. exact Hc'.
+  Qed.
+
+  (* every accepted record whose content is not a handshake message does re-encode *)
+  Theorem record_reencodes n b x : bytes_ok b = true -> record_unmarshal hs n b = Some x ->
+    is_hs (snd x) = false -> exists e, record_marshal hs x = Some e.
+  Proof.
+    destruct x as [h c]. cbn [snd]. intros Hb Hd Hh.
+    destruct (record_unmarshal_inv _ _ _ _ Hb Hd) as [r (Eh & Ec & Hr & Wh & Hct & Hcid)].
+    destruct (content_reencodes _ _ _ Hr Ec Hh) as [ce Ece].
+    pose proof (content_dec_type _ _ _ Ec) as Wt.
+    destruct h as [ct [maj [mi [ep [sq [cid l]]]]]].
+    pose proof (proj1 (header_wf_spec n ct maj mi ep sq cid l) Wh) as (H1 & H2 & H3 & H4 & H5 & H6 & H7 & H8).
+    unfold h_ct, h_cid in *; cbn [fst snd] in *. subst cid.
+    unfold record_marshal. rewrite Ece.
+    unfold h_maj, h_min, h_epoch, h_seq, h_cid; cbn [fst snd length].
+    set (h' := mk_hdr (content_type c) maj mi ep sq [] (len ce mod 65536)).
+    assert (Wh' : wf (c_header 0) h' = true).
+    { apply header_wf_spec. rewrite Wt. repeat split; try assumption.
+      - destruct (ct =? ct_cid); reflexivity.
+      - apply N.mod_lt. lia. }
+    destruct (sound_header 0 h' ce Wh') as [he [Ehe _]]. rewrite Ehe. eexists. reflexivity.
   Qed.
 
   (* REFUTED for the faithful model: "lengths declared inside a message are honoured" - the
